@@ -47,6 +47,16 @@ class EventHeap:
         # Set via _active_sim_context so Event/ProcessContinuation use it.
         self._event_counter: count = count()
 
+    def continue_counter_after_pending(self) -> None:
+        """Start the per-heap counter after every index already in the heap.
+
+        Events created before run() draw their index from the global counter;
+        continuing from the largest pending index keeps same-time events in
+        creation (FIFO) order across the start of the run.
+        """
+        if self._heap:
+            self._event_counter = count(max(e._sort_index for e in self._heap) + 1)
+
     def set_current_time(self, time: Instant) -> None:
         """Update the current simulation time for accurate trace timestamps."""
         self._current_time = time
